@@ -8,7 +8,7 @@
    CatchScheduler(inner, h); h is ANY handler verdict function, hs ANY history of
    arbitrary action trees (raise positions anywhere, any depth). *)
 From RxVerif Require Import Base.Prelude Core.VTime Core.VTimeFacts Core.Periodic Core.PeriodicFacts
-  Core.CatchSched Core.CatchSchedFacts.
+  Core.CatchSched Core.CatchSchedFacts Core.CatchSchedSolo.
 
 (* Every exception raised by an action (at any depth of scheduling through the
    scheduler handed to the action, periodic actions included) is passed to the
@@ -69,6 +69,37 @@ Theorem C42_no_call_after_dispose : forall c fuel h c0 hs,
 Proof. exact catch_no_call_after_dispose. Qed.
 Print Assumptions C42_no_call_after_dispose.
 
+(* The periodic wrapper is invisible to the calls: for ALL action tables (raising
+   ones included), any handler, the closed form of the calls is that of the
+   unwrapped table ... *)
+Theorem C42_solo_spec_cwrap : forall h f p n clk due st t,
+  solo_spec (cwrap_tab h f) p n clk due st t = solo_spec f p n clk due st t.
+Proof. exact solo_spec_cwrap. Qed.
+Print Assumptions C42_solo_spec_cwrap.
+
+(* ... so schedule_periodic(p, f, st0) made through CatchScheduler(inner, h) on a
+   fresh scheduler followed by advance_to(t) calls the action with exactly the
+   (state, clock) pairs of [solo_spec f]: the same calls as on the wrapped scheduler,
+   and none after the first call that raises (solo_spec stops at the first
+   non-PNext), whatever the handler answers *)
+Theorem C42_periodic_solo : forall c fuel h c0 p f st0 t, 0 <= p -> c0 < t ->
+  rev (ticks_of 0 (log (state_of (run_catch c fuel h (init c0) (solo_history p f st0 t)))))
+  = solo_spec f p fuel c0 (c0 + p) st0 t.
+Proof. exact catch_periodic_solo_ticks. Qed.
+Print Assumptions C42_periodic_solo.
+
+Theorem C42_periodic_solo_same_calls : forall c fuel h c0 p f st0 t, 0 <= p -> c0 < t ->
+  ticks_of 0 (log (state_of (run_catch c fuel h (init c0) (solo_history p f st0 t))))
+  = ticks_of 0 (log (state_of (run c fuel (init c0) (solo_history p f st0 t)))).
+Proof. exact catch_periodic_solo_same. Qed.
+Print Assumptions C42_periodic_solo_same_calls.
+
+(* and nothing escapes advance_to in that run unless the handler rejected it *)
+Theorem C42_periodic_solo_escapes : forall c fuel h c0 p f st0 t, raw_tab f = true ->
+  excs_ok h (log (state_of (run_catch c fuel h (init c0) (solo_history p f st0 t)))).
+Proof. exact catch_periodic_solo_escapes. Qed.
+Print Assumptions C42_periodic_solo_escapes.
+
 (* ---- witnesses ------------------------------------------------------ *)
 
 (* [hv] accepts 1, rejects 2; [ex_c42]: Core/CatchSchedFacts.v *)
@@ -96,3 +127,11 @@ Proof. vm_compute. reflexivity. Qed.
 Example C42_witness_transparent :
   forallb noraise_t [TDo (SSched (Abs 1) 0 [SSched (Rel 1) 1 [SNote 7]; SCancel 0]); TStart] = true.
 Proof. vm_compute. reflexivity. Qed.
+
+(* C42_periodic_solo on a raising table: three calls, the third raises 1 (accepted
+   by hv), no fourth call although 20 is far away *)
+Example C42_witness_periodic_solo :
+  solo_spec ([(0, PNext [] 0%N 1); (1, PNext [] 0%N 2)], PRaise [] 1) 2 20 0 2 0 20
+  = [(0, 2); (1, 4); (2, 6)]
+  /\ raw_tab ([(0, PNext [] 0%N 1); (1, PNext [] 0%N 2)], PRaise [] 1) = true.
+Proof. vm_compute. split; reflexivity. Qed.
